@@ -10,7 +10,7 @@ if [ -z "${SKIP_SUITE:-}" ]; then
   if ( cd "$d" && /venv/bin/python -m pytest -q -p no:cacheprovider -x >/dev/null 2>&1 ); then echo "SUITE=pass"; else echo "SUITE=fail"; fi
 fi
 for id in "$@"; do
-  out=$(VERIF_REPO="$d" /verif/check "$id" --tier "$tier" --no-evidence 2>&1); rc=$?
+  out=$(VERIF_REPO="$d" VERIF_REPLAY_DIR="$d/_replays" /verif/check "$id" --tier "$tier" --no-evidence 2>&1); rc=$?
   echo "$id exit=$rc $(echo "$out" | grep -c '^VIOLATION') violation line(s)"
   echo "$out" | grep -E '^(VIOLATION|  signature|HARNESS|KNOWN)' | head -${SHOW:-4} | cut -c1-300
 done
